@@ -4462,7 +4462,7 @@ class FST:
                     for p in path.split('.')] if path else []
 
         for p in path:
-            if (next := p.get_default(self.a)) is False:
+            if (next := p.get_default(self.a)) is False or next is None:  # None is an optional child which is not there
                 return self if last_valid else False
 
             self = next.f
